@@ -427,6 +427,13 @@ func (tc *tableCollector) collectFromNode(node ast.Node) {
 		if n.With != nil {
 			tc.collectFromNode(n.With)
 		}
+	case *ast.MergeStatement:
+		if n.TargetTable.Name != "" {
+			tc.tables[n.TargetTable.Name] = true
+		}
+		if n.SourceTable.Name != "" {
+			tc.tables[n.SourceTable.Name] = true
+		}
 	case *ast.WithClause:
 		for _, cte := range n.CTEs {
 			tc.collectFromNode(cte)
@@ -510,6 +517,13 @@ func (qtc *qualifiedTableCollector) collectFromNode(node ast.Node) {
 		}
 		if n.With != nil {
 			qtc.collectFromNode(n.With)
+		}
+	case *ast.MergeStatement:
+		if n.TargetTable.Name != "" {
+			qtc.addTable(n.TargetTable.Name)
+		}
+		if n.SourceTable.Name != "" {
+			qtc.addTable(n.SourceTable.Name)
 		}
 	case *ast.WithClause:
 		for _, cte := range n.CTEs {
@@ -622,6 +636,16 @@ func (cc *columnCollector) collectFromNode(node ast.Node) {
 	case *ast.UpdateExpression:
 		cc.collectFromExpression(n.Column)
 		cc.collectFromExpression(n.Value)
+	case *ast.SetClause:
+		if n.Column != "" {
+			cc.columns[n.Column] = true
+		}
+	case *ast.MergeAction:
+		for _, col := range n.Columns {
+			if col != "" {
+				cc.columns[col] = true
+			}
+		}
 	case *ast.WithClause:
 		for _, cte := range n.CTEs {
 			cc.collectFromNode(cte)
@@ -779,6 +803,16 @@ func (qcc *qualifiedColumnCollector) collectFromNode(node ast.Node) {
 	case *ast.UpdateExpression:
 		qcc.collectFromExpression(n.Column)
 		qcc.collectFromExpression(n.Value)
+	case *ast.SetClause:
+		if n.Column != "" {
+			qcc.addColumn("", n.Column)
+		}
+	case *ast.MergeAction:
+		for _, col := range n.Columns {
+			if col != "" {
+				qcc.addColumn("", col)
+			}
+		}
 	case *ast.WithClause:
 		for _, cte := range n.CTEs {
 			qcc.collectFromNode(cte)
